@@ -93,16 +93,16 @@ type Interp struct {
 	// Steps bounds the work of one top-level evaluation (fail closed on runaway).
 	StepBudget int
 	// SkipCalls lists functions treated as no-ops returning Top (e.g. host output).
-	nextObj  int
-	hostSyms map[string]Sym
+	nextObj     int
+	hostSyms    map[string]Sym
 	pathSplitFn map[*ssa.Function]bool
-	appendSeq int
+	appendSeq   int
 	// PreciseMap tells whether maps of this type may be modelled entry by entry (set by the
 	// world: true iff no code reachable in the run phase updates or deletes from a map of that type)
 	PreciseMap func(types.Type) bool
 	// LenProofUsed: the '< len' references that actually discharged an index obligation
 	LenProofUsed map[*Object]bool
-	lenCells    map[CellKey]*Object // pseudo objects naming "the slice held by this cell" for '< len' facts
+	lenCells     map[CellKey]*Object // pseudo objects naming "the slice held by this cell" for '< len' facts
 }
 
 func NewInterp(prog *ssa.Program, repo func(*types.Package) bool) *Interp {
